@@ -86,7 +86,13 @@ def _collect_in_loop_form(f: Func) -> Func:
                 D, v, L = st.targets[0].id, st.value.generators[0].target.id, _list_attr(st.value.generators[0].iter)
                 cond = st.value.generators[0].ifs[0]
                 nxt = [s_ for s_ in blk[i + 1:] if isinstance(s_, ast.For) and norm.is_name(s_.iter, D) and isinstance(s_.target, ast.Name)]
-                if not nxt or blk.index(nxt[0]) != i + 1 or nxt[0].orelse:
+                if not nxt or nxt[0].orelse:
+                    continue
+                j = [k_ for k_, s_ in enumerate(blk) if s_ is nxt[0]][0]
+                # only inert initialisations (`results = []`) may stand between the selection and its loop
+                if not all(isinstance(s_, ast.Assign) and len(s_.targets) == 1 and isinstance(s_.targets[0], ast.Name) and s_.targets[0].id != D
+                           and isinstance(s_.value, (ast.Constant, ast.List, ast.Dict, ast.Tuple)) and not any(isinstance(x, (ast.Name, ast.Call, ast.Attribute)) for x in ast.walk(s_.value))
+                           for s_ in blk[i + 1:j]):
                     continue
                 lp = nxt[0]
                 # BODY must not disturb COND / the list
@@ -118,7 +124,7 @@ def _collect_in_loop_form(f: Func) -> Func:
                 cowner = omap[id(blk_owner)]
                 cblk = getattr(cowner, fld)
                 cblk[i] = new_init
-                cblk[i + 1] = new_lp
+                cblk[j] = new_lp
                 ast.fix_missing_locations(node)
                 for n in ast.walk(node):
                     for ch in ast.iter_child_nodes(n):
